@@ -42,7 +42,7 @@ Admissible(rec) == \A key \in ItemKeys : \E i \in 1..Len(past) : ValOf(rec, key)
 InitC == Init /\ dur = Len(file) /\ past = <<Obs(mem)>> /\ crashed = FALSE
 
 \* an ordinary engine call; snapshots/compactions/compress make everything before them durable
-Durabilising == {"SaveSnapshot", "RewriteAOF", "VCompress", "Reopen", "VDeleteCut", "VImportCommit"}
+Durabilising == {"SaveSnapshot", "RewriteAOF", "VCompress", "Reopen", "VDeleteCut", "VImportCommit", "SnapshotCut"}
 Step ==
   /\ ~crashed
   /\ Next
@@ -106,8 +106,16 @@ ReopenAfterCrash ==
   /\ ops' = Append(ops, [op |-> "Reopen", res |-> "ok"])
   /\ UNCHANGED <<snap, file, clock, dev, delat, dirty, dur, past, crashed>>
 
+\* the recovered process carries on: calls, procedures and further crashes follow a recovery. What it recovered to is
+\* what it has shown; everything in the repaired log is durable.
+Resume ==
+  /\ crashed
+  /\ crashed' = FALSE
+  /\ dur' = Len(file) /\ past' = <<Obs(mem)>>
+  /\ UNCHANGED vars
+
 NextC ==
-  \/ Step \/ Flush
+  \/ Step \/ Flush \/ Resume
   \/ \E k \in 0..Len(file) : CrashAt(k)
   \/ CrashSnapRenamed \/ CrashRwReplaced
   \/ CrashAdminEarly("snap.tmp_written") \/ CrashAdminEarly("rw.tmp_written")
